@@ -70,9 +70,35 @@ def judge_roundtrip(ctx, d, msgs, plaintext, pathkind, cont, case):
     arg = pathlib.Path(path) if pathkind == 'Path' else path
     src = list(msgs) if cont == 'list' else tuple(msgs) if cont == 'tuple' else (m for m in msgs)
     clause = 'read(write(L)) == sysex(L) [text]' if plaintext else 'read(write(L)) == sysex(L) [binary]'
+    form = ctx.count_files % 3
     try:
-        write_syx_file(arg, src, plaintext=plaintext)
+        if form == 0:
+            write_syx_file(arg, src, plaintext=plaintext)
+        elif form == 1 or plaintext:
+            write_syx_file(arg, src, plaintext)              # the documented positional form
+        else:
+            write_syx_file(arg, src)
         got = read_syx_file(arg)
+        if form == 2 and isinstance(src, (list, tuple)):
+            # the caller edits what it was handed (bytes() lists, the messages read back) and then writes
+            # the same list once more: same result
+            first = data_of(got) if isinstance(got, list) else None
+            for m in list(msgs)[:50]:
+                b = m.bytes()
+                if isinstance(b, list):
+                    del b[:]
+                    b.append(0x42)
+            for m in got[:50]:
+                try:
+                    m.data = (0x7F,)
+                    m.time = 9
+                except Exception:
+                    pass
+            write_syx_file(arg, src, plaintext)
+            got = read_syx_file(arg)
+            if first is not None and isinstance(got, list) and data_of(got) != first:
+                ctx.check(clause, False, f'second-write-differs:{"text" if plaintext else "binary"}', case,
+                          {'first_n': len(first), 'second_n': len(got)})
     except Exception as exc:
         ctx.fail(clause, f'raised:{type(exc).__name__}:{"text" if plaintext else "binary"}', case,
                  f'{type(exc).__name__}: {exc}')
@@ -296,9 +322,9 @@ def run(ctx):
                     long_list = [Message('sysex', data=(i, i, i, i)) for i in range(6)]
                     case = {'kind': 'overwrite', 'first_plaintext': first_plain, 'second_plaintext': plaintext}
                     try:
-                        write_syx_file(path, long_list, plaintext=first_plain)
+                        write_syx_file(path, long_list, first_plain)
                         for second in ([Message('sysex', data=(99,))], [Message('note_on')], []):
-                            write_syx_file(path, second, plaintext=plaintext)
+                            write_syx_file(path, second, plaintext)
                             got = read_syx_file(path)
                             want = [tuple(m.data) for m in second if m.type == 'sysex']
                             ctx.check('read(write(L)) == sysex(L) [text]' if plaintext else 'read(write(L)) == sysex(L) [binary]',
